@@ -347,6 +347,58 @@ def w_backend_add(task):
     return part
 
 
+def f_addsub(x, y):
+    return (x + y) - y
+
+
+def f_addsub2(x, y):
+    return (y + x) - y
+
+
+def w_backend_mixed(task):
+    """binary functions on arguments of DIFFERENT float types: with extra precision the evaluation happens in the first
+    argument's context, so (x + y) - y returns exactly x, in x's type, for every pair of argument types."""
+    fa = setup_repo_import()
+    u = fa.utils
+    part = new_part()
+    names = ("float16", "float32", "float64")
+    for dxn in names:
+        for dyn in names:
+            dx, dy = DT[dxn], DT[dyn]
+            px = FMT[dxn]["p"]
+            w = px - 1
+            ms = [0, 1, (1 << w) - 1, (1 << (w - 1)) + 1, 0x155555555555555 & ((1 << w) - 1), 0x0F0F0F0F0F0F0F & ((1 << w) - 1)]
+            xs = np.array([s_ * (1.0 + m / float(1 << w)) * 2.0 ** e for e in range(-10, 3) for m in ms for s_ in (1.0, -1.0)], dtype=dx)
+            ys = np.array([(0.5 + 0.4375 * (i % 7)) * (1 if i % 3 else -1) * 2.0 ** (i % 4) for i in range(len(xs))], dtype=dy)
+            for opts in (dict(extra_prec_multiplier=4), dict(extra_prec=60), dict(extra_prec_multiplier=2, extra_prec=20)):
+                optkey = ",".join(f"{k}={v}" for k, v in sorted(opts.items()))
+                for fname, fn in (("(x+y)-y", f_addsub), ("(y+x)-y", f_addsub2)):
+                    part["evaluations"] += len(xs)
+                    case = {"kind": "backend-mixed", "dx": dxn, "dy": dyn, "opts": optkey, "fn": fname}
+                    try:
+                        got = u.vectorize_with_mpmath(fn, **opts)(xs, ys)
+                    except Exception as e:
+                        add_violation(part, f"backend:mixed-argument-types:raises:{type(e).__name__}", f"vectorize_with_mpmath({fname}, {opts})({dxn}, {dyn}) raised {type(e).__name__}: {e}", case)
+                        continue
+                    got = np.asarray(got)
+                    if dxn != dyn:
+                        part["nontrivial"] += len(xs)
+                    # the result type follows the operand that leads the expression (x for (x+y)-y, y for (y+x)-y)
+                    lead = dx if fn is f_addsub else dy
+                    if got.dtype != np.dtype(lead):
+                        add_violation(part, f"backend:mixed-argument-types:result-type:{'same' if dxn == dyn else 'different'}-types", f"vectorize_with_mpmath({fname}, {opts})({dxn} x, {dyn} y) returns {got.dtype}, expected {np.dtype(lead)}", case)
+                        continue
+                    with np.errstate(all="ignore"):
+                        want = xs.astype(lead)  # the exact result x, rounded once to the result type
+                    lname = np.dtype(lead).name
+                    bad = np.flatnonzero(got.view(FMT[lname]["ui"]) != want.view(FMT[lname]["ui"]))
+                    if len(bad):
+                        i = int(bad[0])
+                        add_violation(part, f"backend:mixed-argument-types:value:{'same' if dxn == dyn else 'different'}-types:expression-led-by-{'first' if fn is f_addsub else 'second'}-argument", f"vectorize_with_mpmath({fname}, {opts})({dxn} {xs[i]!r}, {dyn} {ys[i]!r}) = {got[i]!r}; with the requested extra precision the exact result {xs[i]!r} is representable ({len(bad)} of {len(xs)} points differ)", case)
+    part["samples"].append({"backend_mixed_argument_types": "all ordered pairs of float16/32/64", "points_per_pair": 156})
+    return part
+
+
 def run(run):
     thorough = run.tier == "thorough"
     NB = 14 if thorough else 12
@@ -387,6 +439,7 @@ def run(run):
     step = (len(Ab) + nsh - 1) // nsh
     tasks = [dict(dtype="float16", alphabet_bits=Ab, rows=[i * step, min(len(Ab), (i + 1) * step)], opt_indices=[0, 2, 3] if not thorough else [0, 1, 2, 3, 4]) for i in range(nsh)]
     run.map(MOD, "w_backend_add", tasks)
+    run.map(MOD, "w_backend_mixed", [dict()])
     run.counters["float16_add_alphabet"] = len(Ab)
     run.rule = (
         f"mpf2float: every odd mantissa < 2**{NB} x leading-bit exponent -30..18 x sign x flush(default,False,True) for float16 (all ties, "
@@ -405,6 +458,9 @@ def replay(case):
     fa = setup_repo_import()
     u = fa.utils
     part = new_part()
+    if case["kind"] == "backend-mixed":
+        p2 = w_backend_mixed(dict())
+        return [(v["sig"], v["msg"]) for v in p2["violations"] if v["case"]["dx"] == case["dx"] and v["case"]["dy"] == case["dy"]]
     if case["kind"] == "mpf":
         ctx = mpmath.mp.clone()
         ctx.prec = 64
